@@ -65,7 +65,7 @@ func (r *run) writeEvidence(ld *loaded, results []*interp.HarnessResult, cases [
 			"assert_sites": st.AssertSite, "assertions_evaluated": st.Asserts, "solver_obligations": st.Obligation,
 			"queries":       map[string]int{"sat": st.Solver.Sat, "unsat": st.Solver.Unsat, "unknown": st.Solver.Unknown, "error": st.Solver.Errors},
 			"solver_time_s": round3(st.Solver.Time.Seconds()), "wall_s": round3(res.Wall.Seconds()), "instructions": st.Instrs,
-			"diamond_merges": st.Merges, "wrap_terms": st.WrapTerms, "top_fork_sites": topN(st.ForkSites, 5),
+			"diamond_merges": st.Merges, "wrap_terms": st.WrapTerms, "pure_summaries": st.PureMerges, "pure_summaries_abandoned": st.PureAborts, "top_fork_sites": topN(st.ForkSites, 5),
 			"path_budget_exhausted": res.Exhausted,
 		})
 		for k, s := range res.Samples {
